@@ -136,7 +136,7 @@ func rtCursor(a *aggregator, v *rtView) {
 		}
 		nInc++
 		fs, keys := domFacts(bo.Block())
-		cur := "positions[" + termX(bo.X) + "]"
+		cur := positions.Name() + "[" + termX(bo.X) + "]"
 		guarded := false
 		for _, k := range keys {
 			if !consistent(append(append([]fact{}, fs...), fact{false, cur, k})) {
